@@ -66,10 +66,10 @@ FLAG_SETS = [['--verbose', '0'], ['--verbose', '1'], ['--quiet'], ['--silent'], 
 # the by-construction outcome set enumerated in every order: the 8 kinds of the property text, the two
 # "fails before anything ran" kinds (compile-only error in the first executed part, malformed directive) and the two
 # "ends itself at run time" kinds (the doctest calls pytest.skip() / raises ExitTestException: passed, later ones run)
-ALPHABET = G.KINDS + G.EARLY_KINDS + G.EXIT_KINDS
+ALPHABET = G.KINDS + G.EARLY_KINDS + G.EXIT_KINDS + ['reqblock']
 # random modules: additionally the near-miss / option-sensitive kinds and `pyskip` (first line `>>> # pytest.skip`:
 # force-disabled for pytest ONLY, so the native runner must run it)
-NATIVE_KINDS = G.KINDS + G.EXTRA_KINDS + G.EARLY_KINDS + G.EXIT_KINDS + G.STATE_KINDS + ['pyskip']
+NATIVE_KINDS = G.KINDS + G.EXTRA_KINDS + G.EARLY_KINDS + G.EXIT_KINDS + G.STATE_KINDS + G.LEFTON_KINDS + ['pyskip']
 
 
 def exhaustive_items(maxlen):
@@ -87,6 +87,14 @@ def spec_of_kinds(name, t, salt):
     spec = G.make_spec(name, items, rng=rng)
     if rng.random() < 0.04:
         spec['import_error'] = True      # the module under test raises when imported
+    return spec
+
+
+def _maybe_attached(spec, rng, p=0.12):
+    """some random modules get their docstrings attached at import time from a sibling module (no prompt in the
+    module's own file); they are always run with dynamic analysis"""
+    if rng.random() < p and not spec.get('import_error'):
+        spec['attached'] = True
     return spec
 
 
@@ -110,7 +118,9 @@ def names_for(spec, style, rng, limit=4):
 def plan_cases(spec, rng, quick, exhaustive):
     """list of cases for one module"""
     style = 'google' if exhaustive and rng.random() < 0.6 else rng.choice(['google', 'freeform', 'auto'])
-    optstr, opts = (None, {}) if (exhaustive and rng.random() < 0.8) else rng.choice(G.OPTION_SETS)
+    # user-supplied directive defaults on a third of the exhaustive modules (state shared between the doctests of ONE
+    # run only shows when defaults are given)
+    optstr, opts = (None, {}) if (exhaustive and rng.random() < 0.65) else rng.choice(G.OPTION_SETS)
     # exhaustive modules of three or more callables: two named doctests are enough (the smaller modules and the
     # random stream name up to four), which keeps the quick tier within its time budget
     cmds = ['all', 'list'] + names_for(spec, style, rng, 2 if (exhaustive and quick and len(spec['funcs']) >= 3) else 4)
@@ -143,6 +153,8 @@ def plan_cases(spec, rng, quick, exhaustive):
                 opts_c = dict(opts_c, __genv__=True)
                 extra['global_exec'] = rng.choice([E.GEXEC, E.GEXEC2])
             extra['analysis'] = rng.choice(['auto', 'auto', 'static', 'auto' if spec.get('import_error') else 'dynamic'])
+            if spec.get('attached'):
+                extra['analysis'] = 'dynamic'      # docstrings attached at import time: only dynamic analysis sees them
             if rng.random() < 0.2:
                 extra['durations'] = rng.choice([0, 2])
         cases.append(dict({'channel': 'api', 'cmd': cmd, 'style': st_c, 'verbose': v, 'optstr': optstr_c, 'opts': opts_c,
@@ -151,7 +163,8 @@ def plan_cases(spec, rng, quick, exhaustive):
                           **extra))
         if cmd in ('all', 'list') or rng.random() < 0.4:
             cases.append({'channel': 'main', 'cmd': cmd if not (cmd == 'all' and rng.random() < 0.3) else None, 'style': style,
-                          'flags': rng.choice(FLAG_SETS), 'optstr': optstr, 'opts': opts})
+                          'flags': rng.choice(FLAG_SETS) + (['--analysis', 'dynamic'] if spec.get('attached') else []),
+                          'optstr': optstr, 'opts': opts})
     if not exhaustive:
         # REPETITION: the same call twice or three times in a row, and the first call again at the very end
         rep = []
@@ -196,7 +209,7 @@ def _worker(args):
                     specs.append(spec_of_kinds('x%d_%s' % (shard, '_'.join(map(str, t))), t, seed))
         else:
             for i in range(params['count']):
-                specs.append(G.random_spec('r%d_%d' % (shard, i), rng, maxlen=12, kinds=NATIVE_KINDS))
+                specs.append(_maybe_attached(G.random_spec('r%d_%d' % (shard, i), rng, maxlen=12, kinds=NATIVE_KINDS), rng))
         for spec in specs:
             cases = plan_cases(spec, rng, params['quick'], mode == 'exhaustive')
             if params.get('expect_only'):
@@ -254,11 +267,12 @@ def _cli_worker(args):
     try:
         trace = os.path.join(d, 'trace.txt')
         for i in range(count):
-            spec = G.random_spec('c%d_%d' % (shard, i), rng, maxlen=6, kinds=NATIVE_KINDS)
+            spec = _maybe_attached(G.random_spec('c%d_%d' % (shard, i), rng, maxlen=6, kinds=NATIVE_KINDS), rng)
             style = rng.choice(['google', 'freeform', 'auto'])
             optstr, opts = rng.choice(G.OPTION_SETS)
             cmd = rng.choice(['all', 'all', None, 'list'] + names_for(spec, style, rng, 2))
-            case = {'channel': 'cli', 'cmd': cmd, 'style': style, 'flags': rng.choice(FLAG_SETS), 'optstr': optstr, 'opts': opts}
+            case = {'channel': 'cli', 'cmd': cmd, 'style': style, 'optstr': optstr, 'opts': opts,
+                    'flags': rng.choice(FLAG_SETS) + (['--analysis', 'dynamic'] if spec.get('attached') else [])}
             for res in R.run_cases(d, spec, [case], trace):
                 out['n'] += 1
                 out['suites']['random:cli'] = out['suites'].get('random:cli', 0) + 1
@@ -328,7 +342,7 @@ def _opt_worker(args):
         moddir = os.path.join(d, 'mods')
         os.makedirs(moddir)
         for i in range(nmod):
-            spec = G.random_spec('o%d_%d' % (shard, i), rng, maxlen=6, kinds=NATIVE_KINDS)
+            spec = _maybe_attached(G.random_spec('o%d_%d' % (shard, i), rng, maxlen=6, kinds=NATIVE_KINDS), rng, 0.2)
             path = R.write_module(moddir, spec)
             for j in range(ncase):
                 style = rng.choice(['google', 'freeform', 'auto'])
@@ -336,6 +350,8 @@ def _opt_worker(args):
                 t = E.draw(rng, style, optstr, opts)
                 if t.get('needs_import') and spec.get('import_error'):
                     continue
+                if spec.get('attached'):
+                    t = dict(t, nat=t['nat'] + ['--analysis', 'dynamic'], name=t['name'] + '+attached-docstrings')
                 channel = 'main' if (j % 3 and not t['subprocess_only']) else 'cli'
                 mode = rng.choice(TARGET_MODES[:3]) if channel == 'main' else rng.choice(TARGET_MODES)
                 use_pty = channel == 'cli' and rng.random() < 0.25
@@ -591,24 +607,38 @@ def _shrink_hit(inp):
     name = spec['name']
     cur = dict(inp)
     # 1. is the history needed at all?  then: as little of it as possible
+    hc = [0]
+
+    def with_hist(h):
+        hc[0] += 1
+        return _eval_input(dict(cur, history=h, spec=dict(spec, name='%s_h%d' % (name, hc[0]))))[0]
+
     if cur.get('history'):
-        if _eval_input(dict(cur, history=[]))[0]:
+        if with_hist([]):
             cur['history'] = []
         else:
-            cur['history'] = shrink_list(cur['history'], lambda h: _eval_input(dict(cur, history=h))[0], max_steps=25)
+            cur['history'] = shrink_list(cur['history'], with_hist, max_steps=25)
     # 2. as few callables as possible
+
+    counter = [0]
+
+    def fresh():
+        # a NEW module name for every evaluation: a module imported under a name stays in sys.modules, and a later
+        # module file of the same name in another directory would be judged against it (K-C10-c)
+        counter[0] += 1
+        return '%s_s%d' % (name, counter[0])
 
     def pred(funcs):
         if not funcs:
             return False
-        return _eval_input(dict(cur, spec=dict(spec, name=name + '_s', funcs=funcs)))[0]
+        return _eval_input(dict(cur, spec=dict(spec, name=fresh(), funcs=funcs)))[0]
 
     funcs = shrink_list(spec['funcs'], pred, max_steps=40)
-    small = dict(cur, spec=dict(spec, name=name + '_s', funcs=funcs))
+    small = dict(cur, spec=dict(spec, name=fresh(), funcs=funcs))
     ok, res = _eval_input(small)
     if not ok:
-        small = cur
-        ok, res = _eval_input(cur)
+        small = dict(cur, spec=dict(spec, name=fresh()))
+        ok, res = _eval_input(small)
     small['module_source'] = G.render(small['spec'])
     return {'kind': 'expectation', 'suite': 'runner', 'input': small,
             'expected': _short(res['exp']), 'impl': _short_obs(res['obs']), 'why': '; '.join(res['bad'])}
